@@ -52,6 +52,19 @@ def gen_family(name, consts, *, timeout=900, workers=8, simulate=None, depth=Non
     return [sc for _, sc in out], run
 
 
+def gen_chains(cfg="ChainGen_q.cfg", timeout=600):
+    """Chain scenarios (stage sequences x branch policies) with their lowering, enumerated by TLC from spec/ChainGen.tla"""
+    run = vlib.tlc("ChainGen", cfg, workers=2, timeout=timeout)
+    vlib.tlc_must_pass(run, "chain scenario generation")
+    out = []
+    for (js,) in [t for t in run.tagged("CASE") if len(t) == 1]:
+        sc = json.loads(js)
+        sc["fam"] = "chain"
+        out.append((js, sc))
+    out.sort(key=lambda t: t[0])
+    return [sc for _, sc in out], run
+
+
 def decorate(scs, *, seed, calls_choices=(("invoke",), ("stream",), ("invoke", "stream"), ("stream", "invoke")),
              snode_frac=0.35, strm_branch_frac=0.3, noid_frac=0.0, state_frac=0.0, fail_variants=False, state_variants=False,
              delay_frac=0.5, echo_frac=0.0, wrap_frac=0.3):
@@ -73,7 +86,7 @@ def decorate(scs, *, seed, calls_choices=(("invoke",), ("stream",), ("invoke", "
         for inner in (sc.get("sub") or {}).values():
             if rnd.random() < wrap_frac and sc["mode"] != "wf":
                 inner["wrap"] = True
-        if echo_frac and rnd.random() < echo_frac and not sc.get("sub"):
+        if echo_frac and rnd.random() < echo_frac and not sc.get("sub") and sc.get("lower") != "chain":
             # echo nodes pass their input on unchanged: equal keys can then meet at a fan-in (merge error).  Value mode only:
             # in stream mode the engine concatenates instead (finding D13, property C04)
             cand = [n for n in sc["nodes"] if n not in sc.get("rerun", []) and not any(f["n"] == n for f in sc.get("fail", []))]
